@@ -138,7 +138,7 @@ func main() {
 	wit.EnsureMetrics(nil)
 	run := ev.Start("C15", "exploration")
 	defer run.Finish()
-	run.Rule("unit = one DistributeOnce cycle of the real distributor over 1-6 logs against a stub witness (per log one of: valid, missing, wrong log key, no witness signature, invalid witness signature, corrupted, another log's checkpoint, valid with two witness keys, wrong origin, witness error) and a stub distributor (200, 400, 404, 500, connection reset, 302->GET 200, 307->404, 307->200); all witness x distributor answer pairs are enumerated for single logs, sets are PRNG-drawn. Every request reaching the stub is judged (method, path, body identical to the witness's answer, body verifies by kit/refnote); per-log failure accounting is compared with DistributeOnce's result. evaluations = (log, cycle) pairs; nontrivial = distinct (witness answer, distributor answer, set size)")
+	run.Rule("unit = one DistributeOnce cycle of the real distributor over 1-6 logs against a stub witness (per log one of: valid, missing, wrong log key, no witness signature, invalid witness signature, corrupted, another log's checkpoint, valid with two witness keys, wrong origin, witness error) and a stub distributor (200, 400, 404, 500, connection reset, 302->GET 200, 307->404, 307->200); all witness x distributor answer pairs are enumerated for single logs, sets are PRNG-drawn. Every request reaching the stub is judged (method, path, body identical to the witness's answer, body verifies by kit/refnote); per-log failure accounting is compared with DistributeOnce's result; one to three rounds run on the same Distributor instance and the last one is judged. evaluations = (log, cycle) pairs; nontrivial = distinct (witness answer, distributor answer, set size)")
 	run.Assume("307 -> 200 is executed but its success/failure is not judged (the statement leaves it open)")
 	run.Floor("pairs_single", int64(len(witnessAnswers)*len(distAnswers)))
 	run.Floor("pushed_valid", 200)
@@ -261,6 +261,18 @@ func cycle(run *ev.Run, unit int64, r *rand.Rand, ws, ds []string) {
 		return
 	}
 	derr := d.DistributeOnce(context.Background())
+	// the same distributor is polled again and again in production: state kept between rounds must not change the verdicts
+	rounds := 1 + int(unit%3)
+	for k := 1; k < rounds; k++ {
+		sd.mu.Lock()
+		sd.seen = nil
+		sd.mu.Unlock()
+		sw.mu.Lock()
+		sw.asked = nil
+		sw.mu.Unlock()
+		derr = d.DistributeOnce(context.Background())
+	}
+	run.Count(fmt.Sprintf("rounds_%d", rounds))
 
 	wkKey := wk.Key(true)
 	expectFail, judgeErr := 0, true
@@ -276,7 +288,7 @@ func cycle(run *ev.Run, unit int64, r *rand.Rand, ws, ds []string) {
 				mine = append(mine, q)
 			}
 		}
-		detail := map[string]any{"witness_answer": ws[i], "distributor_answer": ds[i], "logs": len(logs), "answer": string(sw.answers[id]), "seen": fmt.Sprint(len(mine)), "err": fmt.Sprint(derr), "all_ws": ws, "all_ds": ds}
+		detail := map[string]any{"round": rounds, "witness_answer": ws[i], "distributor_answer": ds[i], "logs": len(logs), "answer": string(sw.answers[id]), "seen": fmt.Sprint(len(mine)), "err": fmt.Sprint(derr), "all_ws": ws, "all_ds": ds}
 		asked := false
 		for _, a := range sw.asked {
 			if a == id {
